@@ -39,7 +39,7 @@ func namedOf(t types.Type) string {
 
 var viewTypes = map[string]bool{"View": true, "Header": true, "RecordSet": true, "Record": true, "Cell": true, "HeaderField": true}
 
-func dmlWrites(p *Pkg) []Write {
+func dmlWrites(p *Pkg) ([]Write, map[string]bool) {
 	decls := map[*types.Func]*ast.FuncDecl{}
 	byName := map[string]*types.Func{}
 	for _, f := range p.Files {
@@ -178,7 +178,11 @@ func dmlWrites(p *Pkg) []Write {
 		}
 		return out[i].Site < out[j].Site
 	})
-	return out
+	closure := map[string]bool{}
+	for fn := range seen {
+		closure[funcLabel(fn)] = true
+	}
+	return out, closure
 }
 
 // isOwn: make(..), a composite literal, or an append to something that is the function's own / nil
